@@ -115,12 +115,14 @@ def tagsOf (c : Case) : List String :=
     | .zstd => if c.isDelete then [] else ["zst"]
     | .none => []) ++
   (if c.rolls.any Option.isNone then ["missing-file"] else []) ++
-  (if !c.isDelete && c.count ≠ 0 && U32_MOD ≤ c.base + c.count then ["u32-overflow"] else []) ++
+  (if !c.isDelete && c.count ≠ 0 && U32_MOD = c.base + c.count then ["u32-boundary"] else []) ++
+  (if !c.isDelete && !representable c.base c.count then ["u32-unrepresentable"] else []) ++
   (if !c.isDelete && !hasHole c.pattern then ["no-hole"] else []) ++
   (if nRolls = 0 then ["trivial"] else [])
 
 def signature (c : Case) (clause : String) : String :=
   if !c.isDelete && c.count ≠ 0 && U32_MOD ≤ c.base + c.count then "C07/base-plus-count-overflows-u32"
+  else if clause = "build" then "C07/build-rejected"
   else if clause = "roll panicked" then "C07/panic"
   else if clause = "roll failed" then "C07/roll-failed"
   else if clause = "rolled file still at its path" then "C07/rolled-file-remains"
@@ -134,12 +136,20 @@ def handle : Handler := fun cas obs =>
     if !c.isDelete && !hasHole c.pattern then
       { model := "build-err", spec := if implObs = "build-err" then "ok" else "FAIL:builder accepted a pattern without {};sig=C07/no-hole-accepted",
         tags := tagsOf c }
-    else if !c.isDelete && c.count ≠ 0 && U32_MOD < c.base + c.count && implObs = "build-err" then
-      -- a builder that rejects a window whose top index is not a `u32` satisfies the statement
-      { model := encList "/" (runModel c c.init c.rolls), spec := "ok", tags := tagsOf c }
+    else if !c.isDelete && !representable c.base c.count then
+      -- the window's last index is not a `u32`: the builder must refuse (a returned error);
+      -- a panic, or a roller that pretends to work, violates the statement
+      { model := "build-err",
+        spec := if implObs = "build-err" then "ok"
+          else if (implObs.splitOn "PANIC").length > 1 then "FAIL:roll panicked;sig=C07/base-plus-count-overflows-u32"
+          else "FAIL:unrepresentable window accepted;sig=C07/base-plus-count-overflows-u32",
+        tags := tagsOf c }
     else
       let model := encList "/" (runModel c c.init c.rolls)
       let r := c.roller
+      if implObs = "build-err" then
+        { model, spec := "FAIL:builder rejected a representable window;sig=" ++ signature c "build", tags := tagsOf c }
+      else
       match mapM? decRollObs (decList '/' implObs) with
       | none => { model, spec := "FAIL:unreadable observation;sig=C07/observation", tags := tagsOf c }
       | some os =>
@@ -148,7 +158,10 @@ def handle : Handler := fun cas obs =>
         else
           let sc : SpecCfg := { names := if c.isDelete then [] else windowNames r, file := c.file }
           let initWin := sc.names.filterMap (fun nm => c.init.get? nm)
-          let spec := match checkRolls sc initWin c.init [] (c.rolls.zip os) with
+          -- the archives found at base, base+1, … (up to the first gap) are the most recently
+          -- rolled files of an earlier life: they count as rolled contents, newest first
+          let initRolled := (sc.names.map (fun nm => c.init.get? nm)).takeWhile Option.isSome |>.filterMap id
+          let spec := match checkRolls sc initWin c.init initRolled (c.rolls.zip os) with
             | none => "ok"
             | some clause => "FAIL:" ++ clause ++ ";sig=" ++ signature c clause
           { model, spec, tags := tagsOf c }
